@@ -3,7 +3,7 @@ defect6: a path of two hops whose FIRST hop is an Optional reference: the first 
 second hop is an inner join again, so the rows without the optional target are removed from the whole statement -
 also when the path is only one side of an or_.
 
-Run:  cd /tmp/hunt2/C07 && PYTHONPATH=/tmp/hunt2/C07/src:/tmp/hunt2/C07 /venv/bin/python HUNT/defect6.py
+Run:  cd /tmp/hunt2/C07 && PYTHONPATH=/repo/src:/tmp/hunt2/C07 /venv/bin/python HUNT/defect6.py
 Exits non-zero when the translated statement and the in-memory evaluation disagree (the defect is present).
 """
 import importlib, os, sys, tempfile, warnings
